@@ -1254,3 +1254,69 @@ def cached_mutable_result(check: Check, mods: Iterable[Module], rule: str = "CAC
     if n == 0:
         check.ob(rule, next(iter(mods)).tree if mods else ast.Module(body=[], type_ignores=[]), "no functools-memoised function in scope", True, "nothing to check", nontrivial=False)
     return n
+
+
+# --------------------------------------------------------------------------- #
+# IMPLICIT-CONCAT
+
+
+def implicit_word_concats(mod: Module) -> list[tuple[ast.Constant, list[str]]]:
+    """String constants written as two or more adjacent literals that are each one identifier-like word - a tuple of
+    names that lost its commas (`("true" "false" "null")` is the str 'truefalsenull')."""
+    import io
+    import re
+    import tokenize
+
+    src = mod.src
+    out = []
+    word = re.compile(r"[A-Za-z_][A-Za-z_0-9]*\Z")
+    for c in ast.walk(mod.tree):
+        if not (isinstance(c, ast.Constant) and isinstance(c.value, str) and c.end_lineno is not None):
+            continue
+        if c.end_lineno == c.lineno and c.end_col_offset - c.col_offset <= len(c.value) + 3:
+            continue  # one literal
+        seg = ast.get_source_segment(src, c)
+        if not seg:
+            continue
+        try:
+            toks = [t for t in tokenize.generate_tokens(io.StringIO("(" + seg + ")").readline) if t.type == tokenize.STRING]
+        except (tokenize.TokenError, SyntaxError):
+            continue
+        if len(toks) < 2:
+            continue
+        parts = []
+        for t in toks:
+            try:
+                parts.append(ast.literal_eval(t.string))
+            except Exception:  # noqa: BLE001
+                parts = []
+                break
+        if parts and all(isinstance(p_, str) and word.match(p_) for p_ in parts):
+            out.append((c, parts))
+    return out
+
+
+def implicit_concat(check: Check, mods: Iterable[Module], rule: str = "IMPLICIT-CONCAT") -> int:
+    check.rule(
+        rule,
+        "no string constant is written as several adjacent literals that are each a single identifier-like word: "
+        "adjacent literals concatenate, so `('true' 'false' 'null')` - a tuple of names that lost its commas - is the "
+        "one string 'truefalsenull', and `name in <that>` silently becomes a substring test (an enum value called `s`, `e` or "
+        "`nul` is refused as 'reserved'). Sentences split over lines (parts with blanks or punctuation) are not concerned",
+    )
+    fx = fixture("generic_controls")
+    fmod = fx if hasattr(fx, "tree") else None
+    if fmod is not None:
+        hits = {tuple(p) for _c, p in implicit_word_concats(fmod)}
+        check.control(f"{rule}:bad", ("true", "false", "null") in hits, True)
+        check.control(f"{rule}:ok", ("not", "concatenated") in hits, False)
+    n = 0
+    for m in mods:
+        bad = implicit_word_concats(m)
+        n += 1
+        for c, parts in bad:
+            check.ob(rule, c, f"{m.rel.split('graphql/')[-1]}: {' '.join(repr(p_) for p_ in parts)[:60]}", False,
+                     f"{len(parts)} adjacent word literals form the single string {''.join(parts)!r}: commas missing?")
+        if not bad:
+            check.ob(rule, m.tree, f"{m.rel.split('graphql/')[-1]}: string constants", True, "no word-by-word implicit concatenation", nontrivial=False)
+    return n
